@@ -3,6 +3,9 @@
   key normalisation it uses (qcore/caching.py: get_args_tuple, get_kwargs_defaults).
 
   Argument values, parameter names, instances, threads, functions and tasks are identity tokens (Nat).
+  Key equality in the model is equality of value TOKENS (Python `==` on the tuple): two distinct values are two
+  different tokens even when their Python hashes collide (-1 / -2, objects sharing a __hash__); the harness
+  generates such pairs, so a table keyed by hashes instead of values breaks the correspondence.
   Parameter names are ordered like their tokens (the harness names token i "p<i>", one digit).
   Scheduling is NOT modelled here: when a body starts / is resumed / suspends / completes is an INPUT (an
   operation of the history), exactly as observed on the real scheduler; the model answers what every
